@@ -57,6 +57,12 @@ func (b *RulesBuilder) Apply(rules []*config_parser.RoutingRule) (err error) {
 				return fmt.Errorf("unknown function: %v", f.Name)
 			}
 			paramValueGroups, keyOrder := groupParamValuesByKey(f.Params)
+			if len(keyOrder) == 0 {
+				// The parser rejects an empty parameter list, so this is an external list
+				// (geosite/geoip/ext) that expanded to nothing. A condition without any
+				// match set would silently count as true (or splice into the next rule).
+				return fmt.Errorf("condition '%v' has no values: does an external list expand to nothing?", f.String(false, false, false))
+			}
 			for jMatchSet, key := range keyOrder {
 				paramValueGroup := paramValueGroups[key]
 				// Preprocess the outbound.
